@@ -347,8 +347,24 @@ def bigint_programs():
     return out
 
 
+def ragged_programs():
+    """results that are RAGGED lists of real vectors computed at run time (Each returning vectors of unequal length, a
+    0-d tensor joined with a vector inside a list, lists of 0-d tensors): a NumPy object array of torch tensors under
+    torch.  Reals are binary32-exact, so the kg_write texts must be the same characters"""
+    out = []
+    es = ["{x#[1.5 2.5 3.5]}'[1 2]", "{x*1.5}'[[1] [2 3]]", "{x,1.5}'[[1] [2 3]]", "{(-x)#[0.5 1.5 2.5]}'[3 1 2]",
+          "{x_[1.5 2.5 3.5]}'[0 1 2]", "{|x#[1.5 2.5 3.5]}'[2 3]", "{x#a}'b", "{x_a}'[0 1 2]", "{(x#a),0.5}'b",
+          "{(+/x#a),x#a}'b", "{+/x#a}'b", "(+/a),(|/a)", "[;+/a;|/a]", "[;+/a;a]", "{x#a}'[1 2 3]", "{(x#a)%2}'b", "{-x#a}'b",
+          "{_x#a}'b", "{(x#a)*x#a}'b", "{|/x#a}'b", "{+\\x#a}'b", "{(x#a)<2}'b", "{x#a}'|b", "({x#a}'b)@1", "#'{x#a}'b",
+          "{(x#a),,x#a}'b", "{x#1.5}'b", "(1#a),,(2#a)", "{x#[1 2 3]}'[1 2]"]
+    for e in es:
+        out.append(["a::[1.5 2.5 3.5]", "b::[1 2]", e])
+        out.append(["a::[0.5 1.5 2.5 4.0]", "b::[2 1 3]", e])
+    return out
+
+
 def programs(rng, tier):
-    progs = close_programs() + remainder_programs() + bigint_programs()
+    progs = close_programs() + remainder_programs() + bigint_programs() + ragged_programs()
     kinds = list(BIND)
     reps = 6 if tier == "quick" else 40
     flat = [k for k in kinds if not k.startswith("m2")]
